@@ -86,7 +86,7 @@ type Result struct {
 
 var (
 	reStates  = regexp.MustCompile(`(\d+) states generated, (\d+) distinct states found`)
-	reVerdict = regexp.MustCompile(`^<<"VERDICT", (\d+), \{(.*)\}>>$`)
+	reVerdict = regexp.MustCompile(`^<<"V", (\d+), "(.*)">>$`)
 )
 
 // Run executes TLC on module in dir with the given configuration text.
@@ -116,6 +116,7 @@ func Run(dir, module, cfg string, workers, heapMB int, timeout time.Duration, ex
 	start := time.Now()
 	err := cmd.Run()
 	res := &Result{Output: buf.String(), Wall: time.Since(start)}
+	_ = os.WriteFile(filepath.Join(dir, module+".out"), buf.Bytes(), 0o644)
 	if ctx.Err() != nil {
 		return res, fmt.Errorf("tlc %s: timeout after %v", module, timeout)
 	}
@@ -128,16 +129,13 @@ func Run(dir, module, cfg string, workers, heapMB int, timeout time.Duration, ex
 			res.Distinct, _ = strconv.Atoi(m[2])
 		} else if m := reVerdict.FindStringSubmatch(line); m != nil {
 			id, _ := strconv.Atoi(m[1])
-			v := Verdict{ID: id}
-			for _, c := range strings.Split(m[2], ",") {
-				c = strings.Trim(strings.TrimSpace(c), `"`)
-				if c != "" {
-					v.Clauses = append(v.Clauses, c)
-				}
-			}
-			res.Verdicts = append(res.Verdicts, v)
+			res.Verdicts = append(res.Verdicts, Verdict{ID: id, Clauses: []string{m[2]}})
 		} else if strings.HasPrefix(line, "<<\"") {
 			res.Prints = append(res.Prints, line)
+		} else if strings.HasPrefix(line, "<< \"V\"") {
+			// TLC wrapped a verdict line: the output cannot be trusted
+			res.Failed = true
+			res.ErrText = "verdict line wrapped by TLC: " + line
 		} else if strings.HasPrefix(line, "Error:") || strings.Contains(line, "***Parse Error***") {
 			res.Failed = true
 			if res.ErrText == "" {
